@@ -150,9 +150,10 @@ class Spec:
 # ('dshare', path, src) rule.style = other.style      ('dtext', path, items) rule.style.cssText = text
 # ('dset', path, name, wf, empty, replace) setProperty / item assignment   ('dsetobj', path, name) setProperty(Property)
 # ('ddel', path, name) removeProperty / del style[name]
+# ('dshareprop', path, src, i) rule.style.setProperty(<i-th Property object of the block of the rule at src>)
 DNAMES = ['top', 'color', 'right', 'margin-top']      # the names the operations use; the names of the declarations the
                                                       # generated rules are made with (left, margin, font-family) are not among them
-DOPS = ('dnew', 'dshare', 'dtext', 'dset', 'dsetobj', 'ddel')
+DOPS = ('dnew', 'dshare', 'dtext', 'dset', 'dsetobj', 'ddel', 'dshareprop')
 STYLED = ('STYLE_RULE', 'PAGE_RULE', 'FONT_FACE_RULE', 'MARGIN_RULE')
 
 
@@ -221,6 +222,8 @@ def ops_from_json(data):
             out.append((t, tuple(op[1]), [tuple(i) for i in op[2]]) + tuple(op[3:]))
         elif t == 'dshare':
             out.append((t, tuple(op[1]), tuple(op[2])))
+        elif t == 'dshareprop':
+            out.append((t, tuple(op[1]), tuple(op[2]), op[3]))
         elif t in ('dset', 'dsetobj', 'ddel'):
             out.append((t, tuple(op[1])) + tuple(op[2:]))
         elif t == 'nbroken':
@@ -291,6 +294,8 @@ def op_line(op):
         return 'dsetobj %s %s' % (path(op[1]), enc(op[2]))
     if t == 'ddel':
         return 'ddel %s %s' % (path(op[1]), enc(op[2]))
+    if t == 'dshareprop':
+        return 'dshareprop %s %s %d' % (path(op[1]), path(op[2]), op[3])
     if t == 'decl':
         return None         # not an operation of the model (kept for the witnesses of the fixed findings)
     raise ValueError(op)
@@ -505,8 +510,17 @@ class Walker:
             return ('dtext', path, self.ditems())
         if x < 0.65:
             return ('dset', path, r.choice(DNAMES), int(r.random() < 0.9), int(r.random() < 0.1), int(r.random() < 0.8))
-        if x < 0.8:
+        if x < 0.78:
             return ('dsetobj', path, r.choice(DNAMES))
+        if x < 0.81:
+            # a contained object is handed in (known findings C09-shared-declaration-block / C09-shared-property)
+            src = r.choice(styled)
+            if r.random() < 0.5:
+                return ('dshare', path, src)
+            ps = [x.value for x in st.at(src).style.seq if hasattr(x.value, 'literalname')]
+            good = [i for i, q in enumerate(ps) if cname(q.name) != '-']
+            if good:
+                return ('dshareprop', path, src, r.choice(good))
         return ('ddel', path, r.choice(DNAMES))
 
     def next_op(self, st):
@@ -602,6 +616,8 @@ class HistState:
         self.oprops = {}          # id -> (property, type of the rule) (oracle's registry)
         self.blocks = {}          # id -> every declaration block seen as the style of a rule (dump's registry)
         self.bprops = {}          # id -> every property seen in such a block
+        self.shared_blocks = set()    # ids of block objects handed to a second rule (dshare)
+        self.shared_props = set()     # ids of Property objects handed to a second block (dshareprop)
         self.taint_obj = {}       # id(obj) -> finding id (clause-specific: parent links / nested kind)
         self.taint_order = None   # finding id while the top-level order is broken by a known finding
 
@@ -725,7 +741,21 @@ class HistState:
                     other = self.at(op[2])
                     if other.typeString not in STYLED:
                         return 'ERR NoSuchPath'
+                    if other.style is not rule.style:
+                        self.shared_blocks.add(id(other.style))      # region of C09-shared-declaration-block
                     rule.style = other.style
+                elif t == 'dshareprop':
+                    other = self.at(op[2])
+                    if other.typeString not in STYLED:
+                        return 'ERR NoSuchPath'
+                    ps = [x.value for x in other.style.seq if isinstance(x.value, css.Property)]
+                    if op[3] >= len(ps) or cname(ps[op[3]].name) == '-':
+                        return 'ERR NoSuchPath'
+                    p = ps[op[3]]
+                    if other.style is not rule.style:
+                        self.shared_props.add(id(p))                 # region of C09-shared-property
+                    self.props[id(p)] = p
+                    rule.style.setProperty(p)
                 elif t == 'dtext':
                     rule.style.cssText = items_text(op[2])
                 elif t == 'dset':
